@@ -291,13 +291,14 @@ class FitWorld(object):
         pv = self.pv if pv is None else pv
         return sum(ref.constraint_cost(self.con_specs[c], pv) for c in self.cons)
 
-    def ref_cost(self, pv=None, with_det=True, model_is_data=False):
+    def ref_cost(self, pv=None, with_det=True, model_is_data=False, cov_pv=None):
+        """cov_pv: evaluate the covariance at these parameters instead of pv (objective of the iterative algorithm)"""
         pv = self.pv if pv is None else pv
         x, d = self.ref_data()
         if self.ftype == "unbinned":
             return -2.0 * float(np.sum(np.log(self.ref_model(pv)))) + self.ref_constraint_cost(pv)
         m = self.ref_model(pv)
-        V_ = self.ref_covs(pv)["total"]
+        V_ = self.ref_covs(pv if cov_pv is None else cov_pv)["total"]
         c, det = ref.core_cost(self.cost_id, d, d if model_is_data else m, V_, implicit_no_errors=self.implicit_no_errors)
         if not with_det:
             c -= det
